@@ -401,13 +401,6 @@ Proof.
         rewrite (tr_frame_at _ _ _ _ x T1); [reflexivity|]. intros [<-|[]]. contradiction.
 Qed.
 
-(* EntityManager::clear: every archetype is cleared once, in index order *)
-Lemma clear_all_tr s s' : clear_all s = Ok s' ->
-  tr (seq 0 (length (archs s))) (flat_map (arch_clear_events (cinfos s) (archs s)) (seq 0 (length (archs s)))) s s'.
-Proof.
-  unfold clear_all. intros H. apply (fold_clear_tr _ arch_clear_tr) in H; [|apply seq_NoDup]. exact H.
-Qed.
-
 Lemma clear_one_same s h s' : clear_one s h = Ok s' ->
   cinfos s' = cinfos s /\ epoch s' = epoch s /\ log s' = log s /\ archs s' = archs s /\ bufs s' = bufs s /\ tmps s' = tmps s.
 Proof.
@@ -426,6 +419,13 @@ Proof.
   destruct Hs as (E1 & E2 & E3 & E4 & E5 & E6). apply arch_clear_tr in H. destruct H as (a' & Ha' & T).
   rewrite E4, Ha in Ha'. inversion Ha'; subst a'. exists a. split; [assumption|]. rewrite E1 in T.
   eapply tr_trans_nil_l; [|exact T]. apply tr_same; assumption.
+Qed.
+
+(* EntityManager::clear: every archetype is cleared (clearArchetype) once, in index order *)
+Lemma clear_all_tr s s' : clear_all s = Ok s' ->
+  tr (seq 0 (length (archs s))) (flat_map (arch_clear_events (cinfos s) (archs s)) (seq 0 (length (archs s)))) s s'.
+Proof.
+  unfold clear_all. intros H. apply (fold_clear_tr _ clear_archetype_tr) in H; [|apply seq_NoDup]. exact H.
 Qed.
 
 (* ------------------------------------------------------------------------------------------ *)
